@@ -305,6 +305,34 @@ func init() {
 			ex.stub("time.Sleep may return early (clock advances by >= 0)")
 			return nil
 		},
+		// contract model of compression: UnzipModel(ZipModel(x)) == x; ZipModel(x) is the
+		// marker byte 0x1f followed by x (its length is therefore NOT arbitrary: stated)
+		z + "ZipModel": func(ex *Exec, fn *ssa.Function, args []Value, site token.Pos) Value {
+			in := args[0].(SliceV)
+			if in.arr.obj == nil {
+				return TupleV{SliceV{}, ex.mkError(ex.concStr("error input data is nil "))}
+			}
+			bs := append([]*Term{ex.tc.Const(8, 0x1f)}, ex.sliceTerms(in)...)
+			return TupleV{ex.byteSlice(bs), IfaceV{}}
+		},
+		z + "UnzipModel": func(ex *Exec, fn *ssa.Function, args []Value, site token.Pos) Value {
+			in := args[0].(SliceV)
+			if in.len == 0 {
+				return TupleV{ex.byteSlice(nil), ex.mkError(ex.concStr("EOF"))}
+			}
+			bs := ex.sliceTerms(in)
+			isz := ex.tc.Eq(bs[0], ex.tc.Const(8, 0x1f))
+			ok := true
+			if isz.IsConst() {
+				ok = isz.val != 0
+			} else {
+				ok = ex.fork(isz)
+			}
+			if !ok {
+				return TupleV{ex.byteSlice(nil), ex.mkError(ex.concStr("gzip: invalid header"))}
+			}
+			return TupleV{ex.byteSlice(bs[1:]), IfaceV{}}
+		},
 		z + "Thorough": func(ex *Exec, fn *ssa.Function, args []Value, site token.Pos) Value {
 			return ex.tc.Bool(ex.job != nil && ex.job.Cfg.Tier == "thorough")
 		},
